@@ -361,6 +361,9 @@ pub fn finish(c: &Collector, verif_dir: &str, level_rule: &str, assumptions: &[&
     let counters = c.counters.lock().unwrap().clone();
     let samples = c.samples.lock().unwrap().clone();
     let oracle_checks = counters.get("oracle_checks").cloned().unwrap_or(0);
+    if outcomes >= 20_000_000 {
+        c.note("distinct_nontrivial is a lower bound: the set of distinct outcomes is capped at 20 million entries (and at 1 million per worker)".to_string());
+    }
     let seed: i64 = std::env::var("VERIF_SEED").ok().and_then(|s| s.parse().ok()).unwrap_or(0);
     let ev = json!({
         "property_id": c.property,
